@@ -127,6 +127,11 @@ func c09Ops() []c09Op {
 		// a list of a type the decoder does not handle, built by hand the way the specification lays it
 		// out, with a signature header: valid, and the database must keep encoding to a well-formed stream
 		c09Op{name: "AppendList(hand-built RSA2048 list with a 4-byte signature header, one entry)", kind: "appendlist", ltyp: nil},
+		// list-level appends on a list the database already holds (its first list of that type): the
+		// caller works on db[i] directly, e.g. on a list that was decoded empty but with a SignatureSize
+		c09Op{name: "db's first X509 list .AppendBytes(O1,certA-DER)", kind: "listappend", t: x, own: 0, data: "certA-DER"},
+		c09Op{name: "db's first X509 list .AppendBytes(O2,certC-DER)", kind: "listappend", t: x, own: 1, data: "certC-DER"},
+		c09Op{name: "db's first SHA256 list .AppendBytes(O2,h2)", kind: "listappend", t: s, own: 1, data: "h2"},
 		c09Op{name: "AppendDatabase(db with X509[certB-DER] and SHA256[h2])", kind: "appenddb"},
 		c09Op{name: "encode-decode", kind: "encdec"},
 	)
@@ -245,6 +250,13 @@ func c09Apply(db *signature.SignatureDatabase, op c09Op) c09Res {
 		return c09Res{err: db.Append(op.t.g, c09Own[op.own].g, c09Data[op.data])}
 	case "remove":
 		return c09Res{err: db.Remove(op.t.g, c09Own[op.own].g, c09Data[op.data])}
+	case "listappend":
+		for _, l := range *db {
+			if l.SignatureType == op.t.g {
+				return c09Res{err: l.AppendBytes(c09Own[op.own].g, c09Data[op.data])}
+			}
+		}
+		return c09Res{skipped: true}
 	case "appendlist":
 		if op.ltyp == nil {
 			db.AppendList(&signature.SignatureList{SignatureType: signature.CERT_RSA2048_GUID, HeaderSize: 4, SignatureHeader: []byte{0xd1, 0xd2, 0xd3, 0xd4}, Size: 16 + 256, ListSize: 28 + 4 + 16 + 256,
@@ -323,6 +335,20 @@ func c09Check(db *signature.SignatureDatabase, op c09Op) (string, map[string]any
 			if after.has(c09Entry{op.t.g, c09Own[op.own].g, string(raw)}) > 0 && string(raw) != string(norm) {
 				return fmt.Sprintf("%s: PEM input not stored as DER", op.name), d, false
 			}
+			return fmt.Sprintf("%s: success does not add exactly the one entry (others keeping content and order)", op.name), d, false
+		}
+	case "listappend":
+		if res.skipped {
+			return "", nil, false
+		}
+		e := c09Entry{op.t.g, c09Own[op.own].g, string(c09Norm(*op.t, c09Data[op.data]))}
+		if res.err != nil {
+			if afterKey != beforeKey {
+				return fmt.Sprintf("%s: reports an error but changes the database", op.name), d, false
+			}
+			return "", nil, false
+		}
+		if !insertedOne(before.entries, after.entries, e) {
 			return fmt.Sprintf("%s: success does not add exactly the one entry (others keeping content and order)", op.name), d, false
 		}
 	case "remove":
@@ -498,8 +524,8 @@ func c09Inits() []c09Init0 {
 	inits = append(inits, c09Init0{"decoded(SHA256[10 unsorted hashes],SHA256[h2])", func() *signature.SignatureDatabase { return fromBytes(bigStream) }})
 	// decoded streams a library-built database never has: an empty list with a real SignatureSize in
 	// front of the list holding the entries, and a list holding the same entry twice
-	emptyFirst := refesl.Encode([]refesl.List{refesl.Mk(refesl.SHA256, 48), refesl.Mk(refesl.SHA256, 48, refesl.Entry{Owner: ownerA, Data: c09Data["h1"]}, refesl.Entry{Owner: ownerB, Data: c09Data["h2"]})})
-	inits = append(inits, c09Init0{"decoded(SHA256[] with SignatureSize 48,SHA256[h1,h2])", func() *signature.SignatureDatabase { return fromBytes(emptyFirst) }})
+	emptyFirst := refesl.Encode([]refesl.List{refesl.Mk(refesl.X509, uint32(16+len(c09Data["certB-DER"]))), refesl.Mk(refesl.SHA256, 48), refesl.Mk(refesl.SHA256, 48, refesl.Entry{Owner: ownerA, Data: c09Data["h1"]}, refesl.Entry{Owner: ownerB, Data: c09Data["h2"]})})
+	inits = append(inits, c09Init0{"decoded(X509[] with the SignatureSize of certB,SHA256[] with SignatureSize 48,SHA256[h1,h2])", func() *signature.SignatureDatabase { return fromBytes(emptyFirst) }})
 	dup := refesl.Encode([]refesl.List{refesl.Mk(refesl.SHA256, 48, refesl.Entry{Owner: ownerA, Data: c09Data["h1"]}, refesl.Entry{Owner: ownerB, Data: c09Data["h2"]}, refesl.Entry{Owner: ownerA, Data: c09Data["h1"]}),
 		refesl.Mk(refesl.X509, uint32(16+len(c09Data["certB-DER"])), refesl.Entry{Owner: ownerA, Data: c09Data["certB-DER"]})})
 	inits = append(inits, c09Init0{"decoded(SHA256[h1,h2,h1],X509[certB])", func() *signature.SignatureDatabase { return fromBytes(dup) }})
